@@ -14,6 +14,7 @@ import MambaVerif.Model.Diag
 import MambaVerif.Model.ScopeWire
 import MambaVerif.Model.CallConf
 import MambaVerif.Model.Tail
+import MambaVerif.Model.CtorAssign
 
 open MV
 
@@ -111,6 +112,7 @@ def handle (mode : String) (payload : String) : String :=
   | "scope" => MV.SL.scopeRequest payload
   | "callconf" => callConfRequest payload
   | "tail" => MV.tailRequest payload
+  | "ctor" => MV.ctorRequest payload
   | "render" =>
     -- same payload as the harness: `<haspos> l1 c1 l2 c2 <hex msg> <hex path|-> <hex source|-> <n> (l1 c1 l2 c2 <hex msg>)*`
     let ws := (payload.splitOn " ")
